@@ -312,6 +312,8 @@ def check_nocache(ctx) -> None:
     prog, eff = ctx.prog, ctx.eff
     gpr = prog.cls("GPR")
     allowed = {"__init__": None, "update_genes": {"_genes"}, "from_string": None, "from_symbolic": None}
+    # the constructor may only set up the tree and the gene set: any other attribute is derived state waiting to go stale
+    init_ok = {"body", "_genes"}
     for name, ms in gpr.methods.items():
         for m in ms:
             writes = []
@@ -321,11 +323,20 @@ def check_nocache(ctx) -> None:
                     for t in tgts:
                         if isinstance(t, ast.Attribute) and isinstance(t.value, ast.Name) and t.value.id == (m.self_name or "self"):
                             writes.append((t.attr, n))
+                        # self.<attr>[key] = value : a memo table kept on the object
+                        if isinstance(t, ast.Subscript) and isinstance(t.value, ast.Attribute) and isinstance(t.value.value, ast.Name) and t.value.value.id == (m.self_name or "self"):
+                            writes.append((t.value.attr, n))
+                elif isinstance(n, ast.Call) and isinstance(n.func, ast.Attribute) and n.func.attr in ("setdefault", "update", "append", "add", "__setitem__") \
+                        and isinstance(n.func.value, ast.Attribute) and isinstance(n.func.value.value, ast.Name) and n.func.value.value.id == (m.self_name or "self") and n.func.value.attr != "body":
+                    writes.append((n.func.value.attr, n))
             if not writes:
                 if name in ("eval", "to_string", "as_symbolic", "__eq__", "_eval_gpr", "_ast2str", "_symbolic_gpr"):
                     ctx.ok("C08.nocache", m, None, "computes from the tree on every call", nontrivial=True)
                 continue
             for attr, node in writes:
+                if name == "__init__" and attr not in init_ok:
+                    ctx.bad("C08.nocache", m, node, f"GPR.__init__ creates self.{attr}: besides the tree (body) and the gene set a GPR holds no state; a memo table is not invalidated by in-place rewrites of the tree (remove_genes, rename_genes)")
+                    continue
                 if name in allowed and (allowed[name] is None or attr in allowed[name]):
                     continue
                 ctx.bad("C08.nocache", m, node, f"GPR.{name} stores derived state in self.{attr}: in-place rewrites of the tree (remove_genes, rename_genes) do not invalidate it, so later reads describe the old rule")
